@@ -385,7 +385,20 @@ class Gen:
       self.emit(f"return {self.expr(t, env, 1)}", ind)
       return "returned"
     unions = [n for n, t in env.items() if tname(t) in ("union", "opt") and not n.startswith("_")]
-    if unions and x < 0.12:
+    if x > 0.965 and depth < 2:
+      # numeric-tower / bytes-like probe: isinstance against the *promoted* class must not fold
+      v, w = self.fresh(), self.fresh()
+      lo, hi, test = r.choice([("int", "float", "float"), ("int", "float", "complex"), ("bool", "float", "float"),
+                               ("int", "str", "float"), ("float", "str", "complex"), ("int", "none", "float")])
+      self.emit(f"{v} = ({self.expr(lo, env, 2)} if _flag({r.randint(0, 5)}) else {self.expr(hi, env, 2)})", ind)
+      env[v] = ("union", (lo, hi))
+      ta, tb = self.pick_type(1), self.pick_type(1)
+      self.emit(f"if isinstance({v}, {r.choice([test, '(' + test + ', str)'])}):", ind)
+      self.emit(f"{w} = {self.expr(ta, env, 2)}", ind + 1)
+      self.emit("else:", ind)
+      self.emit(f"{w} = {self.expr(tb, env, 2)}", ind + 1)
+      env[w] = ("union", (ta, tb)) if ta != tb else ta
+    elif unions and x < 0.12:
       n = r.choice(unions)
       t = env[n]
       v = self.fresh()
